@@ -50,14 +50,46 @@ var (
 type conn struct {
 	net.Conn
 	out *common.SafeBuffer
+	st  *connState
 }
 
-func (c conn) Write(p []byte) (int, error) { return c.out.Write(p) }
+// connState counts the connection writes and cuts one of them short.
+type connState struct {
+	mu     sync.Mutex
+	n      int
+	failAt int // index of the write that fails after half of its bytes (-1: none)
+	log    []connWrite
+}
+
+type connWrite struct {
+	data []byte
+	cut  bool
+}
+
+var errInjectedWrite = errors.New("c10: injected write failure")
+
+func (c conn) Write(p []byte) (int, error) {
+	if c.st == nil {
+		return c.out.Write(p)
+	}
+	c.st.mu.Lock()
+	i := c.st.n
+	c.st.n++
+	cut := i == c.st.failAt
+	c.st.log = append(c.st.log, connWrite{append([]byte(nil), p...), cut})
+	c.st.mu.Unlock()
+	if cut {
+		c.out.Write(p[:len(p)/2])
+		return len(p) / 2, errInjectedWrite
+	}
+	return c.out.Write(p)
+}
 
 type tsess struct {
 	s    *xmpp.Session
 	peer net.Conn
 	out  *common.SafeBuffer
+	cst  *connState
 
 	mu       sync.Mutex
 	plan     []string // what the handler does for the next stanzas
@@ -84,11 +116,14 @@ func negotiator(ctx context.Context, in, out *stream.Info, s *xmpp.Session, data
 	return xmpp.Ready, nil, nil, nil
 }
 
-func newSess() (*tsess, error) {
+func newSess() (*tsess, error) { return newSessFault(-1) }
+
+func newSessFault(failAt int) (*tsess, error) {
 	c1, c2 := net.Pipe()
 	t := &tsess{peer: c2, out: &common.SafeBuffer{}, handled: make(chan string, 16), serveRet: make(chan error, 1)}
+	t.cst = &connState{failAt: failAt}
 	go c2.Write([]byte(header))
-	s, err := xmpp.NewSession(context.Background(), remoteJID, localJID, conn{Conn: c1, out: t.out}, 0, negotiator)
+	s, err := xmpp.NewSession(context.Background(), remoteJID, localJID, conn{Conn: c1, out: t.out, st: t.cst}, 0, negotiator)
 	if err != nil {
 		return nil, err
 	}
@@ -131,6 +166,10 @@ func (t *tsess) startServe() {
 // feed writes peer bytes; false if the session did not read them in time.
 func (t *tsess) feed(b string) bool {
 	return common.WithTimeout(5*time.Second, func() { t.peer.Write([]byte(b)) })
+}
+
+func (t *tsess) feedWithin(b string, d time.Duration) bool {
+	return common.WithTimeout(d, func() { t.peer.Write([]byte(b)) })
 }
 
 func (t *tsess) waitServe(d time.Duration) bool {
@@ -265,7 +304,10 @@ func wireItems(b []byte) (items []string, bad error) {
 
 var peerOps = map[string]bool{"m": true, "y": true, "h": true, "s": true, "e": true, "p": true, "g": true, "d": true}
 
-type ctxT struct{ r *common.Run }
+type ctxT struct {
+	r      *common.Run
+	stalls int // reads that blocked: after a few, further reads are not waited for
+}
 
 // hist executes one history on a fresh session.
 func (c *ctxT) hist(serve bool, ops []string, class string) {
@@ -280,11 +322,18 @@ func (c *ctxT) hist(serve bool, ops []string, class string) {
 	defer t.close()
 	if serve {
 		t.startServe()
+		// make sure Serve is reading before the first operation (a keep-alive is consumed at once)
+		if !t.feedWithin(" ", 2*time.Second) {
+			r.Line(line, "ERR serve does not read")
+			return
+		}
 	}
 	var res []string
 	closedKnown := false  // a Close has returned or Serve has returned
 	errExpected := false  // Serve ended by sending a stream error of its own while the output was still open
 	termEvent := ""
+	lastDeadline := ""
+	deadlineAtTerm := ""
 	fail := func(clause, key, detail string) { r.Fail(clause, key, lines, detail) }
 	for n, op := range ops {
 		switch {
@@ -320,6 +369,10 @@ func (c *ctxT) hist(serve bool, ops []string, class string) {
 				res = append(res, "na")
 				break
 			}
+			if c.stalls >= 5 {
+				res = append(res, "STALL")
+				break
+			}
 			var e error
 			ok := common.WithTimeout(3*time.Second, func() {
 				rc := t.s.TokenReader()
@@ -328,6 +381,7 @@ func (c *ctxT) hist(serve bool, ops []string, class string) {
 			})
 			switch {
 			case !ok:
+				c.stalls++
 				res = append(res, "STALL")
 				fail("read-after", "TokenReader", "a read after Serve returned blocks instead of failing")
 			case errors.Is(e, xmpp.ErrInputStreamClosed):
@@ -336,6 +390,43 @@ func (c *ctxT) hist(serve bool, ops []string, class string) {
 				res = append(res, fmt.Sprintf("err:%v", e))
 				fail("read-after", "TokenReader", fmt.Sprintf("a read after Serve returned gave %v, not ErrInputStreamClosed", e))
 			}
+		case op == "dp" || op == "df" || op == "dz":
+			when := map[string]time.Time{"dp": time.Unix(1, 0), "df": time.Now().Add(time.Hour), "dz": {}}[op]
+			if e := t.s.SetCloseDeadline(when); e != nil {
+				fail("deadline", "SetCloseDeadline", e.Error())
+			}
+			lastDeadline = op
+			if op == "dp" && t.started && !t.served {
+				// a read deadline in the past interrupts the read Serve is blocked in
+				if !t.waitServe(5 * time.Second) {
+					res = append(res, "STALL")
+					fail("serve-returns", op, "Serve did not return after a close deadline in the past was set")
+					continue
+				}
+				termEvent, closedKnown, deadlineAtTerm = op, true, lastDeadline
+			}
+			res = append(res, "ok")
+		case op == "v":
+			if t.started {
+				res = append(res, "na")
+				break
+			}
+			t.startServe()
+			// Serve either reads (a keep-alive is consumed at once) or has returned
+			if !t.feedWithin(" ", 80*time.Millisecond) {
+				if t.waitServe(3 * time.Second) {
+					termEvent, closedKnown, deadlineAtTerm = op, true, lastDeadline
+				} else {
+					fail("serve-returns", op, "Serve neither reads nor returns")
+				}
+			}
+			if lastDeadline == "df" && t.served && classifyRet(t.ret) == "deadline" {
+				fail("deadline-last-wins", "SetCloseDeadline", "the last close deadline set is an hour away, yet Serve returned a deadline error without reading")
+			}
+			if (lastDeadline == "dp" || lastDeadline == "dz") && !t.served {
+				fail("deadline-last-wins", "SetCloseDeadline", "the last close deadline set has passed, yet Serve keeps running")
+			}
+			res = append(res, "ok")
 		case peerOps[op]:
 			if !t.started || t.served {
 				res = append(res, "na")
@@ -352,16 +443,20 @@ func (c *ctxT) hist(serve bool, ops []string, class string) {
 					res = append(res, "STALL")
 					continue
 				}
+				preempted := false
 				select {
 				case <-t.handled:
+				case err := <-t.serveRet:
+					// Serve returned at the top of its loop without reading the element
+					t.served, t.ret, preempted = true, err, true
 				case <-time.After(5 * time.Second):
 					res = append(res, "STALL")
 					continue
 				}
-				terminal = op == "h" || op == "s" || (op == "y" && outWasClosed)
+				terminal = preempted || op == "h" || op == "s" || (op == "y" && outWasClosed)
 				if !terminal {
 					// a keep-alive is only read once the previous element has been dealt with
-					t.feed(" ")
+					t.feedWithin(" ", 2*time.Second)
 				}
 			case "e":
 				t.feed(`<stream:error><host-gone xmlns='urn:ietf:params:xml:ns:xmpp-streams'/></stream:error>`)
@@ -385,8 +480,9 @@ func (c *ctxT) hist(serve bool, ops []string, class string) {
 					continue
 				}
 				termEvent = op
+				deadlineAtTerm = lastDeadline
 				closedKnown = true
-				errExpected = !outWasClosed && (op == "h" || op == "s" || op == "g")
+				errExpected = !outWasClosed && (op == "h" || op == "s" || op == "g") && lastDeadline != "dz"
 			}
 			res = append(res, "ok")
 		default:
@@ -436,7 +532,15 @@ func (c *ctxT) hist(serve bool, ops []string, class string) {
 		fail("final", "after-tag", fmt.Sprintf("%d items follow the closing tag: %v", afterClose, items))
 	}
 	if termEvent != "" {
-		want := map[string]string{"p": "nil", "e": "peerstreamerr", "s": "streamerr", "h": "handlererr", "g": "garbage", "d": "deadline", "y": "closedout"}[termEvent]
+		want := map[string]string{"p": "nil", "e": "peerstreamerr", "s": "streamerr", "h": "handlererr", "g": "garbage", "d": "deadline", "y": "closedout",
+			"dp": "deadline", "v": "deadline", "m+": "deadline", "y+": "deadline"}[termEvent]
+		if deadlineAtTerm == "dz" && termEvent != "d" && termEvent != "dp" && termEvent != "g" {
+			// the context in force had expired (zero time): Serve gives up at its next look at it
+			want = "deadline"
+		}
+		if want == "deadline" && termEvent != "d" && deadlineAtTerm == "df" {
+			fail("deadline-last-wins", "SetCloseDeadline", "the last close deadline set is an hour away, yet Serve returned a deadline error")
+		}
 		if ret != want {
 			fail("serve-returns", termEvent, fmt.Sprintf("Serve returned %q after event %s, expected %q", ret, termEvent, want))
 		}
@@ -449,6 +553,127 @@ func (c *ctxT) hist(serve bool, ops []string, class string) {
 	}
 }
 
+// whist: Close and transmit calls on a session whose failAt-th connection write is cut
+// short (no Serve).
+func (c *ctxT) whist(failAt int, ops []string) {
+	r := c.r
+	fa := "-"
+	if failAt >= 0 {
+		fa = fmt.Sprint(failAt)
+	}
+	line := fmt.Sprintf("whist %s %s", fa, common.Join(ops, ","))
+	lines := []string{r.Prop + " " + line}
+	t, err := newSessFault(failAt)
+	if err != nil {
+		r.Line(line, "ERR")
+		return
+	}
+	defer t.close()
+	var res []string
+	closeTried := false
+	for n, op := range ops {
+		before := t.cst.n
+		var x string
+		if op == "c" {
+			var e error
+			if !common.WithTimeout(5*time.Second, func() { e = t.s.Close() }) {
+				x = "STALL"
+			} else if e == nil {
+				x = "ok"
+			} else {
+				x = "ioerr"
+			}
+			if closeTried && t.cst.n != before {
+				r.Fail("close-once", "write-fault", lines, "a second Close wrote to the connection again after the first attempt to write the closing tag")
+			}
+			closeTried = true
+		} else {
+			x = t.tx(op, n)
+			if strings.HasPrefix(x, "err:") {
+				x = "ioerr"
+			}
+			if closeTried {
+				if x != "closedout" {
+					r.Fail("closed-error", "write-fault/"+txNames[op], lines, fmt.Sprintf("%s after a (failed) Close returned %q", txNames[op], x))
+				}
+				if t.cst.n != before {
+					r.Fail("final", "write-fault/"+txNames[op], lines, txNames[op]+" wrote to the connection after the closing tag was attempted")
+				}
+			}
+		}
+		res = append(res, x)
+	}
+	var items []string
+	attempts := 0
+	for _, w := range t.cst.log {
+		isClose := bytes.HasPrefix(w.data, []byte("</"))
+		if isClose {
+			attempts++
+		}
+		switch {
+		case isClose && w.cut:
+			items = append(items, "closecut")
+		case isClose:
+			items = append(items, "close")
+		case w.cut:
+			items = append(items, "cut")
+		default:
+			items = append(items, "el")
+		}
+	}
+	st := t.s.State()
+	r.Line(line, fmt.Sprintf("%s %s %s %d", common.Join(res, ","), common.Join(items, ","), common.B(st&xmpp.OutputStreamClosed != 0), attempts))
+	r.Case(line, true, "whist")
+	if attempts > 1 {
+		r.Fail("close-once", "write-fault", lines, fmt.Sprintf("the closing tag was written to the connection %d times: %q", attempts, clip(t.out.Bytes())))
+	}
+	if closeTried && st&xmpp.OutputStreamClosed == 0 {
+		r.Fail("close-once", "write-fault/bit", lines, "Close returned but the output is not marked closed")
+	}
+}
+
+// deadlineStorm: Serve handles a stream of stanzas while another goroutine keeps moving the
+// close deadline (an hour ahead): nothing orders the two, so unsynchronised access to the input
+// context shows up in the race detector.  Serve must handle everything and end with nil.
+func (c *ctxT) deadlineStorm() {
+	r := c.r
+	r.Mark("case deadline-storm")
+	t, err := newSess()
+	if err != nil {
+		return
+	}
+	defer t.close()
+	t.startServe()
+	const n = 150
+	go func() {
+		for i := 0; i < n; i++ {
+			<-t.handled
+		}
+	}()
+	var wg sync.WaitGroup
+	wg.Add(1)
+	go func() {
+		defer wg.Done()
+		for i := 0; i < n; i++ {
+			t.feedWithin(fmt.Sprintf("<message id='s%d' type='chat'/> ", i), 5*time.Second)
+		}
+		t.feedWithin(closeTag, 5*time.Second)
+	}()
+	for i := 0; i < n; i++ {
+		t.s.SetCloseDeadline(time.Now().Add(time.Hour))
+	}
+	wg.Wait()
+	lines := []string{"#scenario=deadline-storm"}
+	if !t.waitServe(10 * time.Second) {
+		r.Fail("serve-returns", "deadline-storm", lines, "Serve did not return after the peer closed the stream")
+		return
+	}
+	if got := classifyRet(t.ret); got != "nil" {
+		r.Fail("deadline-last-wins", "deadline-storm", lines, "every deadline set was an hour away, Serve returned "+got)
+	}
+	r.Case("deadline-storm", true, "deadline-storm")
+}
+
 func clip(b []byte) string {
 	if len(b) > 300 {
 		return string(b[:300]) + "…"
@@ -456,7 +681,7 @@ func clip(b []byte) string {
 	return string(b)
 }
 
-var alphabet = []string{"c", "t1", "t2", "t3", "t4", "t5", "t6", "r", "m", "y", "h", "s", "e", "p", "g", "d"}
+var alphabet = []string{"c", "t1", "t2", "t3", "t4", "t5", "t6", "r", "m", "y", "h", "s", "e", "p", "g", "d", "dp", "df", "dz", "v"}
 
 func enumerate(n int, f func([]string)) {
 	buf := make([]string, n)
@@ -507,6 +732,20 @@ func Run(r *common.Run) error {
 		}
 		return nil
 	}
+	if r.Race() {
+		// race-detector run: the concurrent scenarios only, and histories in which
+		// SetCloseDeadline and Close run while Serve is active
+		c.schedules(true)
+		for i := 0; i < 5; i++ {
+			c.deadlineStorm()
+		}
+		for _, h := range [][]string{{"d"}, {"m", "df", "m", "dp"}, {"df", "c", "p"}, {"y", "dz", "y"}, {"m", "d"}, {"c", "dp"}} {
+			for i := 0; i < 10; i++ {
+				c.hist(true, h, "race")
+			}
+		}
+		return nil
+	}
 	r.Mark("case corpus")
 	for _, h := range [][]string{
 		{"c", "t1"}, {"c", "t2"}, {"c", "t3"}, {"c", "t4"}, {"c", "t5"}, {"c", "t6"}, {"c", "c"},
@@ -518,6 +757,8 @@ func Run(r *common.Run) error {
 	} {
 		c.hist(true, h, "corpus")
 	}
+	// the longest histories only over the operations that do not involve explicit deadline times
+	isNew := map[string]bool{"dp": true, "df": true, "dz": true, "v": true}
 	maxLen := r.Pick(3, 4)
 	for n := 0; n <= maxLen; n++ {
 		enumerate(n, func(ops []string) {
@@ -525,17 +766,57 @@ func Run(r *common.Run) error {
 			if countD(ops) > 1 || (n == maxLen && countD(ops) > 0) {
 				return
 			}
-			c.hist(true, ops, "exhaustive")
-			peer := false
+			peer, hasNew, hasV := false, false, false
 			for _, o := range ops {
 				peer = peer || peerOps[o]
+				hasNew = hasNew || isNew[o]
+				hasV = hasV || o == "v"
 			}
-			if !peer {
+			if hasNew && n == maxLen {
+				return
+			}
+			c.hist(true, ops, "exhaustive")
+			if !peer || hasV {
 				c.hist(false, ops, "exhaustive")
 			}
 		})
 	}
-	r.Exhaustive = append(r.Exhaustive, fmt.Sprintf("all histories of length <= %d over %v (the deadline event at most once and only up to length %d), with Serve running (and without, when no peer event occurs)", maxLen, alphabet, maxLen-1))
+	r.Exhaustive = append(r.Exhaustive, fmt.Sprintf("all histories of length <= %d over %v (the timed deadline event at most once; it, the explicit deadlines and the late start of Serve only up to length %d), with Serve running from the start, and without", maxLen, alphabet, maxLen-1))
+	// several deadlines before and during Serve: the last one is in force
+	dk := []string{"dp", "df", "dz"}
+	for _, a := range dk {
+		for _, b := range dk {
+			for _, tail := range [][]string{{"v", "m", "m", "p"}, {"v", "y", "c", "p"}, {"v", "t1", "e"}} {
+				c.hist(false, append([]string{a, b}, tail...), "deadlines")
+				c.hist(false, append([]string{a, "t1", b, "c"}, tail...), "deadlines")
+			}
+			c.hist(true, []string{"m", a, "m", b, "m", "p"}, "deadlines")
+			for _, x := range dk {
+				c.hist(false, []string{a, b, x, "v", "m", "p"}, "deadlines")
+			}
+		}
+	}
+	// a connection write that fails, at every index
+	wl := r.Pick(3, 4)
+	wops := []string{"c", "t1", "t2", "t3", "t4", "t5", "t6"}
+	for n := 1; n <= wl; n++ {
+		buf := make([]string, n)
+		var rec func(i int)
+		rec = func(i int) {
+			if i == n {
+				for f := -1; f < n; f++ {
+					c.whist(f, append([]string(nil), buf...))
+				}
+				return
+			}
+			for _, o := range wops {
+				buf[i] = o
+				rec(i + 1)
+			}
+		}
+		rec(0)
+	}
+	r.Exhaustive = append(r.Exhaustive, fmt.Sprintf("all histories of length <= %d over %v x the index of the failing connection write (or none)", wl, wops))
 	rnd := r.Rnd
 	nRandom := r.Pick(300, 6000)
 	for i := 0; i < nRandom; i++ {
